@@ -33,7 +33,7 @@ func Shrink(t *testing.T, spec EngineSpec, mk func(*Tape) *Ctx, tape []uint32, v
 			used = used[:len(cand)]
 		}
 		bestTrace, bestV = c.Trace, nv
-		return append([]uint32(nil), used...), true
+		return append([]uint32{}, used...), true
 	}
 	cur := append([]uint32(nil), tape...)
 	// normalise: replay of the original (gives us the trace of a replayed run)
